@@ -385,7 +385,8 @@ def run_threads(ctx, n_threads, per_thread, prob):
 
 def gen(ctx):
     rng = ctx.rng
-    full = ctx.thorough
+    deep = ctx.thorough
+    full = True
     pool = history_pool(rng)
     k = 0
     # crafted short histories around shared-signature / context methods, then random ones
@@ -400,7 +401,7 @@ def gen(ctx):
         for p in range(len(PROBES)):
             k += 1
             yield 'history', dict(history=h, probe=p, is_async=bool(k % 2))
-    for _ in range(6000 if full else 600):
+    for _ in range(60000 if deep else 5000):
         n = rng.randint(1, 12 if full else 6)
         h = [rng.choice(pool) for _ in range(n)]
         k += 1
@@ -409,12 +410,10 @@ def gen(ctx):
         for vname in ('base', 'jsonschema', 'pydantic'):
             for is_async in (False, True):
                 for n in (1, 10, 1000):
-                    if n == 1000 and not full and is_async:
-                        continue
                     yield 'leak', dict(style=style, validator_name=vname, is_async=is_async, n=n)
-    for n_threads, prob in ([(2, 0.1), (4, 0.05), (8, 0.1), (16, 0.02)] if not full else
-                            [(t, p) for t in (2, 3, 4, 8, 12, 16) for p in (0.02, 0.1, 0.2)]):
-        yield 'threads', dict(n_threads=n_threads, per_thread=120 if not full else 300, prob=prob)
+    for n_threads, prob in ([(2, 0.1), (4, 0.05), (8, 0.1), (16, 0.02), (3, 0.2), (8, 0.02), (12, 0.1), (16, 0.2)] if not deep else
+                            [(t, p) for t in (2, 3, 4, 6, 8, 12, 16) for p in (0.01, 0.02, 0.05, 0.1, 0.2, 0.4)] * 3):
+        yield 'threads', dict(n_threads=n_threads, per_thread=200 if not deep else 400, prob=prob)
 
 
 KINDS = {'history': run_history, 'leak': run_leak, 'threads': run_threads}
